@@ -43,6 +43,7 @@ type Violation struct {
 	Derived []bool     `json:"derived"`
 	Obs     []string   `json:"obs,omitempty"`
 	NoReplay bool      `json:"noreplay,omitempty"`
+	ExpectFail []string `json:"expect_fail,omitempty"`
 	Pos     string     `json:"pos"`
 }
 
@@ -64,6 +65,7 @@ type Job struct {
 	Cfg     JobCfg
 
 	start   time.Time
+	quick   int64
 	mu      sync.Mutex
 	cond    *sync.Cond
 	work    [][]int64
@@ -213,7 +215,7 @@ func (j *Job) mergeSolver(sv *Solvers) {
 
 func newExec(P *Program, tc *TermCtx, sv *Solvers) *Exec {
 	return &Exec{P: P, tc: tc, sv: sv, overlay: map[*Object]*Object{}, locks: map[string]int{}, rlocks: map[string]int{}, pool: map[string][]Value{}, ghost: map[string]Value{},
-		funcs: map[string]bool{}, stubs: map[string]bool{}, assumptions: map[string]bool{}, maxSteps: 1 << 62}
+		funcs: map[string]bool{}, stubs: map[string]bool{}, assumptions: map[string]bool{}, maxSteps: 1 << 62, ranges: map[int32]urange{}}
 }
 
 func (j *Job) runPath(tc *TermCtx, sv *Solvers, prefix []int64) {
@@ -358,15 +360,72 @@ func (ex *Exec) addPC(c *Term) {
 		}
 	}
 	ex.pc = append(ex.pc, c)
+	ex.learn(c)
 }
 
 func (ex *Exec) check(extra *Term, model bool) (Result, Model, string) {
+	// independent-constraint slicing: the path condition is known satisfiable (every
+	// decision on this path was confirmed feasible), so constraints that share no variable
+	// (transitively) with the queried condition cannot affect the answer
+	if extra != nil && !model && !ex.unconfirmed && len(ex.pc) > 2 {
+		as := ex.slice(extra)
+		return ex.sv.Check(as, false)
+	}
 	as := make([]*Term, 0, len(ex.pc)+1)
 	as = append(as, ex.pc...)
 	if extra != nil {
 		as = append(as, extra)
 	}
 	return ex.sv.Check(as, model)
+}
+
+func (ex *Exec) varsOf(t *Term) []int32 {
+	if v, ok := ex.tc.varCache[t.id]; ok {
+		return v
+	}
+	set := map[*Term]bool{}
+	ex.tc.VarsOf([]*Term{t}, set)
+	ids := make([]int32, 0, len(set))
+	for v := range set {
+		ids = append(ids, v.id)
+	}
+	ex.tc.varCache[t.id] = ids
+	return ids
+}
+
+func (ex *Exec) slice(extra *Term) []*Term {
+	in := map[int32]bool{}
+	for _, v := range ex.varsOf(extra) {
+		in[v] = true
+	}
+	taken := make([]bool, len(ex.pc))
+	out := []*Term{}
+	for changed := true; changed; {
+		changed = false
+		for i, c := range ex.pc {
+			if taken[i] {
+				continue
+			}
+			vs := ex.varsOf(c)
+			hit := false
+			for _, v := range vs {
+				if in[v] {
+					hit = true
+					break
+				}
+			}
+			if !hit {
+				continue
+			}
+			taken[i] = true
+			changed = true
+			out = append(out, c)
+			for _, v := range vs {
+				in[v] = true
+			}
+		}
+	}
+	return append(out, extra)
 }
 
 // fork decides a symbolic branch condition.
@@ -387,6 +446,14 @@ func (ex *Exec) fork(c *Term) bool {
 		default:
 			return false
 		}
+	}
+	if v, known := ex.quickDecide(c); known {
+		if v {
+			ex.trace = append(ex.trace, 3)
+		} else {
+			ex.trace = append(ex.trace, 2)
+		}
+		return v
 	}
 	rT, _, _ := ex.check(c, false)
 	if rT == Unsat {
@@ -496,6 +563,13 @@ func (ex *Exec) snapshot(label, kind, msg string, m Model, pos token.Pos) *Viola
 	for _, o := range ex.observes {
 		v.Obs = append(v.Obs, o.tag+"="+ex.evalObs(o.v, m))
 	}
+	seen := map[string]bool{}
+	for _, a := range ex.assertLog {
+		if val, ok := ex.tc.Eval(a.cond, m); ok && val == 0 && !seen[a.label] {
+			seen[a.label] = true
+			v.ExpectFail = append(v.ExpectFail, a.label)
+		}
+	}
 	return v
 }
 
@@ -540,6 +614,9 @@ func (ex *Exec) evalObs(v Value, m Model) string {
 // obligation checks that cond holds on every input of the current path.
 func (ex *Exec) obligation(cond *Term, label, kind string, pos token.Pos) {
 	j := ex.job
+	if kind == "assert" {
+		ex.assertLog = append(ex.assertLog, assertRec{label, cond})
+	}
 	replaying := len(ex.trace) < len(ex.prefix)
 	_ = replaying
 	if cond.IsConst() && cond.val != 0 {
@@ -553,7 +630,12 @@ func (ex *Exec) obligation(cond *Term, label, kind string, pos token.Pos) {
 	already := o.Violation != nil
 	j.mu.Unlock()
 	if !already {
-		r, m, why := ex.check(ex.tc.Not(cond), true)
+		// sliced query first (most obligations hold); the full query with a model only
+		// when a counterexample exists
+		r, m, why := ex.check(ex.tc.Not(cond), false)
+		if r == Sat {
+			r, m, why = ex.check(ex.tc.Not(cond), true)
+		}
 		j.mu.Lock()
 		switch r {
 		case Unsat:
